@@ -20,6 +20,7 @@ func genC07(t *rapid.T) *Case {
 	p.TablesInLists = 8
 	p.EmptyCells = true
 	p.InlineNestables = true
+	p.RowGaps = true
 	nest := []wc{{"list", 30}, {"quote", 12}, {"pre", 8}, {"dtable", 8}, {"strayli", 2}, {"ulinline", 2}}
 	p.Top = append(append([]wc{}, p.Top...), nest...)
 	p.Core = append(append([]wc{}, p.Core...), nest...)
